@@ -3,6 +3,7 @@ import re
 
 from cv import flow, rules
 from cv.rules import events_of, order_after_success
+from props import common
 
 TITLE = "A garbage collection and a backup running together never lose data"
 TECHNIQUE = 'static analysis: check-then-act shape of the gc/backup interlock by MIR dominance and guards (outcomes over schedules are not decided)'
@@ -162,6 +163,8 @@ def run(ck, w):
         ck.fail(o, "backup::backup", "anchor-missing", "block_dir events=%d Band::create events=%d" % (len(bds_), len(creates)))
     else:
         rules.order_after_success(ck, o, bk, creates, bds_, "Band::create", "block_dir()")
+
+    common.block_dir_fresh(ck, w, "C06.2e")
 
     # ---- 3. backup side: re-check after raising its own flag -----------------------------------------------
     o = ck.ob("C06.3", "backup(): the lock is read again after Band::create succeeded and before the block directory is listed")
